@@ -597,9 +597,9 @@ func (g *generator) genBad(w *World) (Op, bool) {
 	case 5: // upper address on TLSF / default lists
 		return mkOp("alloc", a, 100, 4, all, 0, fUpperAddress, 0, 0, 0, pool), true
 	case 6: // contradictory flags
-		return mkOp("alloc", a, 100, 4, all, r.pick(uUnknown, uAuto), r.pick(fDedicated|fNeverAllocate, fHostRandom|fHostSeqWrite, fHostAllowTransfer), 0, 0, 0, pool), true
-	case 7: // auto + mapped without host access
-		return mkOp("alloc", a, 100, 4, all, uAuto, fMapped, 0, 0, 0, -1), true
+		return mkOp("alloc", a, 100, 4, all, r.pick(uUnknown, uAuto, uAutoPreferDevice, uAutoPreferHost), r.pick(fDedicated|fNeverAllocate, fHostRandom|fHostSeqWrite, fHostAllowTransfer), 0, 0, 0, pool), true
+	case 7: // every auto usage + mapped without host access (default lists, pools, dedicated)
+		return mkOp("alloc", a, r.pick(100, 100, bs), 4, all, r.pick(uAuto, uAutoPreferDevice, uAutoPreferHost), fMapped|r.pick(0, 0, fDedicated), 0, 0, 0, r.pick(-1, pool)), true
 	case 8: // never allocate on empty allocator / huge never allocate
 		return mkOp("alloc", a, r.pick(100, bs*2), 4, all, 0, fNeverAllocate, 0, 0, 0, pool), true
 	case 9: // double free
